@@ -12,6 +12,7 @@ Binding: TLC-generated histories (exhaustive canonical histories on a small alph
   after every operation every (org, expression) pair is searched, after deletes and at the end also
   `| stats count by`, column listing, index listing and a metrics query per organisation.
 """
+import glob
 import json
 import os
 import random
@@ -33,12 +34,12 @@ MANIFEST = dict(
           "alias shared across indexes and organisations; transcription of virtualtablenames file vs memory map, "
           "aliasToIndexNames, open/unrotated/rotated segments keyed by table name with OrgId filters, deleteIndex by name. TLC: "
           "NoLeak, ExactByName, Exact (patched transcription), NoDeleteExact (this tree's transcription), 2 orgs x 3 indexes, <= 4 "
-          "operations (thorough: 2 orgs <= 6, 3 orgs <= 4). Replay: canonical histories of exactly 4 operations over 2 orgs x {a, ab} "
+          "operations (thorough: 2 orgs <= 5, 3 orgs <= 4). Replay: canonical histories of exactly 4 operations over 2 orgs x {a, ab} "
           "(4724, exhaustive export) and simulated histories of 6 operations over 3 orgs x {a, ab, b}; a seeded stratified sample is "
           "executed on the real engine (ES bulk with org id, alias and delete-index handlers with a synthetic RequestCtx, flush, "
           "forced rotation) and after every operation every (org, expression) is searched; `stats count by`, listColumnNames, "
           "listIndices and a PromQL selector per organisation are checked after deletes and at the end."),
-    note=("Replay is a sample (quick ~300 histories, thorough ~3000), not all histories. Completeness (an answer missing events) "
+    note=("Replay is a sample (quick 240 histories, thorough 2000), not all histories. Completeness (an answer missing events) "
           "is judged only where the statement speaks: data lost through a DeleteIndex; other under-delivery that the transcription "
           "predicts is recorded as an observation, unpredicted under-delivery is SPEC-DRIFT (exit 2). Delete is exercised with "
           "direct names only (no wildcard/alias deletes); ingest never targets an alias name; restart, retention, PQS and the "
@@ -78,6 +79,12 @@ class Replayer:
     def close(self):
         self.dr.quit()
         vlib.rmtree(self.d)
+
+    def restart(self):
+        """new server life on the same data directory (the driver exits without a shutdown flush)"""
+        self.dr.quit()
+        self.dr = vlib.Driver(self.binary)
+        self.dr.ok("init", dir=self.d, wait_ms=400)
 
     def metrics_prologue(self):
         for o in self.orgs:
@@ -295,9 +302,58 @@ def replay_history(binary, h):
                         if not any(("org:o%d," % o) in g for g in ms):
                             out["obs"].append("metrics: org %d does not see its own series at step %d" % (o, k + 1))
             prev = cur
+        # ---- persistent metadata: a delete must leave the rotated segments of every OTHER (org, index) listed in segmeta.json.
+        # If one is missing, a second server life on the same directory decides: the events were searchable before the
+        # restart and must still be.  (Restart is only used when segmeta.json already shows the loss, so losses that a
+        # restart causes for other reasons - C07's subject - cannot be blamed on the delete.)
+        if any(s_["op"]["op"] == "delete" and s_["op"]["present"] for s_ in steps):
+            survivors = {}       # (org, idx) -> ids that were rotated and whose index was not deleted afterwards
+            done = set()
+            for r, s_ in enumerate(steps):
+                if s_["op"]["op"] != "rotate":
+                    continue
+                for o, by in s_["ev"].items():
+                    for i, ids in by.items():
+                        new = set(ids) - done
+                        done |= set(ids)
+                        if new and not any(d["op"]["op"] == "delete" and d["op"]["present"] and (d["op"]["org"], d["op"]["idx"]) == (int(o), i)
+                                           for d in steps[r + 1:]):
+                            survivors.setdefault((int(o), i), set()).update(new)
+            listed = set()
+            for p in glob.glob(os.path.join(rp.d, "ingestnodes", "*", "segmeta.json")):
+                for line in open(p):
+                    try:
+                        m = json.loads(line)
+                        listed.add((int(m.get("orgid", 0)), m.get("virtualTableName")))
+                    except ValueError:
+                        pass
+            lost = sorted(k for k in survivors if k not in listed)
+            if lost:
+                before = {k: rp.search(k[0], k[1])[0] or set() for k in lost}
+                rp.restart()
+                for (o, i) in lost:
+                    want = set((o, i, n) for n in survivors[(o, i)]) & before[(o, i)]
+                    if not want:
+                        continue      # already not searchable before the restart (reported above, if it is a violation)
+                    got = set()
+                    deadline = time.time() + 4.0
+                    while True:
+                        got = rp.search(o, i)[0] or set()
+                        if not (want - got) or time.time() > deadline:
+                            break
+                        time.sleep(0.3)
+                    if want - got:
+                        dels = [d["op"] for d in steps if d["op"]["op"] == "delete" and d["op"]["present"] and (d["op"]["org"], d["op"]["idx"]) != (o, i)]
+                        rel = "cross-org" if any(d["idx"] == i and d["org"] != o for d in dels) else "other-index"
+                        out["viol"].append(("C13:delete-index:%s:persistent-metadata" % rel,
+                                            "rotated segment of (org %d, index %s) is no longer listed in segmeta.json after %s; its events %s were searchable "
+                                            "before a restart and are gone after it" % (o, i, json.dumps(dels[-1] if dels else None), sorted(n for (_, _, n) in want - got))))
+                    else:
+                        out["obs"].append("segmeta: (org %d, %s) not listed but still searchable after restart" % (o, i))
     except vlib.DriverDead as e:
-        if e.kind == "hang":
-            raise vlib.Infra("engine did not answer in time (machine load?): %s" % e)
+        if e.kind == "hang" or e.rc in (-15, -9, -2):
+            # no answer in time, or the process was killed from outside (SIGTERM/SIGKILL/SIGINT): not the engine's doing
+            raise vlib.Infra("engine did not answer in time or was killed from outside (machine load / cleanup?): %s" % e)
         out["died"] = str(e)
     finally:
         if rp is not None:
@@ -366,7 +422,7 @@ def run(chk):
             rf3 = vlib.run_tlc("MC_Tenancy", "MC_Tenancy_fixed_3orgs.cfg", timeout=1500, workers=WORKERS)
             vlib.tlc_must_hold(rf3, "Tenancy (patched transcription, 3 orgs)")
             chk.add_tlc("MC_Tenancy_fixed_3orgs", rf3, "same invariants, 3 organisations")
-        mc = write_cfg(sc, "MC_Tenancy_cur.cfg", "MC_Tenancy.cfg", flags, None if quick else {"MaxOps = 4": "MaxOps = 6"})
+        mc = write_cfg(sc, "MC_Tenancy_cur.cfg", "MC_Tenancy.cfg", flags, None if quick else {"MaxOps = 4": "MaxOps = 5"})
         rc = vlib.run_tlc("MC_Tenancy", "MC_Tenancy_cur.cfg", timeout=1500, extra_files=[mc], workers=WORKERS)
         vlib.tlc_must_hold(rc, "Tenancy (this tree's transcription): NoDeleteExact")
         chk.add_tlc("MC_Tenancy", rc, "NoDeleteExact, TypeOK for code variant %s" % flags)
@@ -441,9 +497,22 @@ def run(chk):
             i += 1
         return sel
 
-    n_small, n_sim = (130, 130) if quick else (1500, 1500)
+    n_small, n_sim = (120, 120) if quick else (1000, 1000)
     sel = pick(small, n_small) + pick(sim, n_sim)
-    results = vlib.pmap(lambda h: replay_history(binary, h), sel, workers=WORKERS)
+    retried = []
+
+    def history_with_retry(h):
+        # a hang / missing answer under machine load is infrastructure: the history is replayed once more on a fresh engine
+        try:
+            return replay_history(binary, h)
+        except vlib.Infra as e:
+            if "hang" not in str(e) and "did not answer" not in str(e):
+                raise
+            retried.append(str(e)[:200])
+            return replay_history(binary, h)
+
+    results = vlib.pmap(history_with_retry, sel, workers=WORKERS)
+    chk.cov["histories_retried_after_hang"] = len(retried)
 
     found = {}
     drift, traces, observations = [], 0, {}
